@@ -1,4 +1,5 @@
 import Canopy.Proof.SmtHash
+import Canopy.Proof.SmtPar
 import Canopy.Gen.SmtFacts
 /-!
 # C08 — the state root is a pure, collision-free function of the state
@@ -22,9 +23,14 @@ What is proved here, for every key length `n > 0`, every tree and every history:
                            node hash is injective on 4-tuples (collision-freeness + unambiguity of the unframed
                            concatenation; a hypothesis, not an axiom; `H4Inj_satisfiable` shows it is consistent)
 
+* `parallel_eq_sequential`  `CommitParallel` (14 synthetic borders in, eight workers each confined to the subtree below
+                           its 3-bit prefix and taken in ANY order, borders out) returns exactly what the sequential
+                           `Commit` returns, under `ParOK` (one valid operation per key, nothing reserved, no key equal
+                           to a synthetic border); `root_is_pure` puts sequential, parallel and batching together
+
 Not proved here (covered by the correspondence run only, see `checks/C08.py`): the L2 refinement (node table,
-traversal stack, rehash-skipping) of `smt.go` to these L1 functions, and the goroutine level of `CommitParallel`.
-`parallel_eq_sequential` for the border-key scheme of the model is in `Canopy/Proof/SmtPar.lean` when present.
+traversal stack, rehash-skipping) of `smt.go` to these L1 functions, and the goroutine level of `CommitParallel`
+(the model's workers are functions on disjoint subtrees applied in an arbitrary order, not threads).
 -/
 namespace Canopy.Smt
 open Trie
@@ -114,28 +120,8 @@ theorem root_eq_iff {H4 : Bytes → Bytes → Bytes → Bytes → Bytes} (hH : H
 
 /-! ### the idealisation is consistent (non-vacuity of `root_injective`) -/
 
-/-- a framed, hence injective, stand-in for the node hash: every byte `x` becomes `1 x`, every field ends in `0` -/
-def frame (x : Bytes) : Bytes := x.flatMap (fun b => [1, b]) ++ [0]
-def framed4 (a b c d : Bytes) : Bytes := frame a ++ (frame b ++ (frame c ++ frame d))
-
-theorem frame_append_inj : ∀ (x y r s : Bytes), frame x ++ r = frame y ++ s → x = y ∧ r = s
-  | [], [], r, s, h => by simpa [frame] using h
-  | [], b :: y, r, s, h => by simp [frame] at h
-  | a :: x, [], r, s, h => by simp [frame] at h
-  | a :: x, b :: y, r, s, h => by
-    simp only [frame, List.flatMap_cons, List.append_assoc, List.cons_append, List.nil_append, List.cons.injEq,
-      true_and] at h
-    obtain ⟨e, h⟩ := h
-    have := frame_append_inj x y r s (by simpa [frame] using h)
-    exact ⟨by rw [e, this.1], this.2⟩
-
-theorem H4Inj_satisfiable : H4Inj framed4 := by
-  intro a b c d a' b' c' d' h
-  unfold framed4 at h
-  obtain ⟨e1, h⟩ := frame_append_inj _ _ _ _ h
-  obtain ⟨e2, h⟩ := frame_append_inj _ _ _ _ h
-  obtain ⟨e3, h⟩ := frame_append_inj _ _ _ _ h
-  exact ⟨e1, e2, e3, (frame_append_inj d d' [] [] (by simpa using h)).1⟩
+/-- a framed stand-in for the node hash (`framed4`, Proof/SmtHash.lean) satisfies the hypothesis -/
+theorem H4Inj_consistent : H4Inj framed4 := H4Inj_satisfiable
 
 /-- …whereas the *unframed* concatenation that `updateParentValue` hashes is ambiguous as a byte string: the
 4-tuple is not recoverable from `lk ‖ lv ‖ rk ‖ rv`, so "different states ⇒ different roots" cannot be derived
@@ -143,6 +129,62 @@ from collision resistance of SHA-256 alone — it rests on the lengths of the fi
 theorem unframed_concatenation_ambiguous :
     ∃ a b c d a' b' c' d' : Bytes, (a, b, c, d) ≠ (a', b', c', d') ∧ a ++ b ++ c ++ d = a' ++ b' ++ c' ++ d' :=
   ⟨[1], [2], [], [], [1, 2], [], [], [], by decide, by decide⟩
+
+/-! ### parallel commit -/
+
+/-- **Parallel = sequential.** For every key length `n ≥ 4`, every canonical tree, every batch satisfying `ParOK` and every
+order `sched` in which the eight workers are taken: `CommitParallel` = `Commit` — the same tree, hence the same root, no
+error, no trace of the borders. -/
+theorem parallel_eq_sequential {n : Nat} (hn : 4 ≤ n) {t : Trie} {S : KMap} {ops : List Op}
+    (h : t.Rep n S) (hs : S.HasSentinels n) (ok : ParOK n S ops)
+    (sched : List Nat) (hsched : ∀ i, i ∈ sched ↔ i < 8) :
+    commitParallelWith sched n t ops = commit t ops ∧ commitParallel n t ops = commit t ops
+    ∧ commitAuto n t ops = commit t ops := by
+  have h1 := commitParallelWith_eq_commit hn h hs ok sched hsched
+  have h2 : commitParallel n t ops = commit t ops :=
+    commitParallelWith_eq_commit hn h hs ok (List.range 8) (fun i => List.mem_range)
+  refine ⟨h1, h2, ?_⟩
+  unfold commitAuto
+  split
+  · rfl
+  · exact h2
+
+/-- the hypotheses of `parallel_eq_sequential` are satisfiable by a non-trivial batch (n = 5; one set, one delete) -/
+example : ParOK 5 (initMap 5) [.set [false, true, false, true, false] [1], .del [true, false, true, true, false]] := by
+  refine ⟨?_, ?_, ?_, ?_, ?_, ?_⟩
+  · intro op hop; simp at hop; rcases hop with rfl | rfl <;> simp [Op.Valid, minKey, maxKey]
+  · intro op hop; simp at hop; rcases hop with rfl | rfl <;> rfl
+  · intro op hop; simp at hop; rcases hop with rfl | rfl <;> simp [Op.key, minKey, maxKey, rootKey]
+  · intro a ha b hb e
+    simp at ha hb
+    rcases ha with rfl | rfl <;> rcases hb with rfl | rfl <;> simp [Op.key] at e ⊢
+  · intro op hop; simp at hop; rcases hop with rfl | rfl <;> decide
+  · intro b hb
+    have : b ∈ borders 5 → b ≠ minKey 5 ∧ b ≠ maxKey 5 := border_not_sentinel (by decide)
+    have := this hb
+    simp [initMap, this.1, this.2]
+
+/-- **The root is a pure function of the state**, all clauses together: start from the trees of two stores with the same
+contents, commit two *different* lists of batches — each batch sequentially or in parallel, workers in any order — and if the
+resulting states are equal then so are the resulting trees and roots. (Stated for one batch on each side; longer
+histories follow by iterating `commit_total`, which re-establishes `Rep`.) -/
+theorem root_is_pure {n : Nat} (hn : 4 ≤ n) {t₁ t₂ : Trie} {S₁ S₂ : KMap} {ops₁ ops₂ : List Op}
+    (h₁ : t₁.Rep n S₁) (h₂ : t₂.Rep n S₂) (hs₁ : S₁.HasSentinels n) (hs₂ : S₂.HasSentinels n)
+    (ok₁ : ParOK n S₁ ops₁) (hv₂ : ∀ op ∈ ops₂, op.Valid n)
+    (sched : List Nat) (hsched : ∀ i, i ∈ sched ↔ i < 8)
+    (hfinal : S₁.run (sortOps ops₁) = S₂.run (sortOps ops₂)) :
+    commitParallelWith sched n t₁ ops₁ = commit t₂ ops₂ := by
+  rw [(parallel_eq_sequential hn h₁ hs₁ ok₁ sched hsched).1,
+    (commit_total (by omega) h₁ hs₁ ok₁.valid).1, (commit_total (by omega) h₂ hs₂ hv₂).1,
+    history_independence (by omega) _ _ h₁ h₂ hs₁ hs₂ (valid_sortOps ok₁.valid) (valid_sortOps hv₂) hfinal]
+
+/-- `ParOK` is needed: a batch that sets a key equal to a synthetic border loses it in `CommitParallel` (reproduced on the
+real code by the correspondence run at 8-bit keys; for 160-bit keys it takes a SHA-256 preimage of e.g. `0x20 00…00`). -/
+example :
+    let b : Key := borderLow 5 1
+    (match stepTop ((empty 5).run ((borders 5).map fun x => Op.set x borderVal)) (.set b [9]) with
+      | some t => ((borders 5).foldl (fun s x => delete x s) t).keys.contains b
+      | none => true) = false := by decide
 
 /-! ### tie to the source: the constants the model hard-codes are the ones `store/smt.go` has today
 (`Canopy/Gen/SmtFacts.lean` is regenerated from the working tree on every run) -/
